@@ -81,7 +81,11 @@ def classify(line):
         elif t.startswith("P["):
             m = re.match(r"P\[f:([^\]]*)\]\[r:([^\]]*)\]\[l:(\d+)\]", t)
             out.append(("pf", "f:" + m.group(1), depth))
-            out.append(("pr", "r:" + m.group(2), depth))
+            # registrations per trackable are compared as "none / some": how many callbacks the library
+            # registers per reference is its own business, that none is left behind is the property's
+            regs = m.group(2)
+            if "?" not in regs:
+                out.append(("pr", "r:" + re.sub(r"=([1-9]\d*)", "=+", regs), depth))
         elif t == "-":
             out.append(("skip", t, depth))
         else:
